@@ -352,3 +352,99 @@ class Item:
         if self.erase() != self.orig:
             raise AssertionError('erasure check failed for ' + self.name)
         return True
+
+
+# ------------------------------------------------------------------------------------------------
+# `sub(old, new)`: convenience front end.  `new` must be `old` plus ghost text; the call is decomposed
+# into the typed operations above (so the same validation and erasure apply) or rejected.
+
+_CLAUSE_AT_LINE = re.compile(r'\n[ \t]*(requires|ensures|decreases|recommends|invariant|invariant_except_break)\b')
+_BODY_BRACE_LINE = re.compile(r'\n[ \t]*\{[ \t]*(?=\n|$)')
+
+
+def _sub(self, old, new, occ=1):
+    if old in new and not (old.rstrip().endswith('{') and _CLAUSE_AT_LINE.search(new)):
+        i = new.index(old)
+        pre, post = new[:i], new[i + len(old):]
+        if pre.strip():
+            self.before(old, pre, occ)
+        if post.strip():
+            self.after(old, post, occ)
+        return self
+    o = old.rstrip()
+    if o.endswith('{') and _CLAUSE_AT_LINE.search(new):
+        m = _BODY_BRACE_LINE.search(new)
+        if not m:
+            raise NotGhost('%s: sub(): cannot find the body brace line in the replacement of %r' % (self.name, old[:60]))
+        head, prelude = new[:m.start()], new[m.end():]
+        c = _CLAUSE_AT_LINE.search(head)
+        sighead, clauses = head[:c.start()], head[c.start():]
+        pos = self._anchor(old, occ, hard=True, what='signature/loop')
+        brace = pos + len(o) - 1
+        first = o.split()[0] if o.split() else ''
+        is_loop = first in ('loop', 'while', 'for')
+        if is_loop:
+            if ' '.join(sighead.split()) != ' '.join(o[:-1].split()):
+                raise NotGhost('%s: sub(): loop header changed: %r vs %r' % (self.name, sighead, o[:-1]))
+            if not SPEC_CLAUSE.match(clauses):
+                raise NotGhost('%s: loop spec' % self.name)
+            self._add(brace, 'ins', 0, '\n            ' + clauses.strip() + '\n        ')
+            if prelude.strip():
+                check_ghost_statements(prelude, self.name + ' loop prelude')
+                self._add(brace + 1, 'ins', 0, '\n        ' + prelude.strip())
+            return self
+        if brace != self.body_open:
+            raise NotGhost('%s: sub(): %r is not the signature of the item' % (self.name, old[:60]))
+        rm = re.search(r'->\s*\((\w+):\s', sighead)
+        ret = rm.group(1) if rm else None
+        # the signature itself must be unchanged apart from the naming of the return value
+        if ret:
+            plain = re.sub(r'->\s*\(%s:\s*' % ret, '-> ', sighead, count=1).rstrip()
+            if not plain.endswith(')'):
+                raise NotGhost('%s: sub(): named return not closed' % self.name)
+            plain = plain[:-1]
+        else:
+            plain = sighead
+        if ''.join(plain.split()) != ''.join(o[:-1].split()):
+            raise NotGhost('%s: sub(): signature text changed: %r vs %r' % (self.name, plain, o[:-1]))
+        self.sig(spec=clauses, prelude=prelude, ret=ret)
+        return self
+    # multi-line old with ghost lines inserted between its lines
+    ol = old.split('\n')
+    nl = new.split('\n')
+    pos = self._anchor_soft(old, occ)
+    if pos is None:
+        return self
+    i = 0
+    off = 0
+    groups = []
+    cur = []
+    for ln in nl:
+        if i < len(ol) and ln == ol[i]:
+            if cur:
+                groups.append((off, '\n'.join(cur)))
+                cur = []
+            off += len(ol[i]) + 1
+            i += 1
+        else:
+            cur.append(ln)
+    if i != len(ol):
+        raise NotGhost('%s: sub(): replacement is not the original plus inserted lines: %r' % (self.name, old[:60]))
+    if cur:
+        groups.append((off - 1, '\n'.join(cur)))
+    for off, ghost in groups:
+        check_ghost_statements(ghost, self.name)
+        self._add(pos + off, 'ins', 0, ghost.rstrip() + '\n')
+    return self
+
+
+def _anchor_soft(self, anchor, occ):
+    try:
+        return self._anchor(anchor, occ)
+    except LostAnchor as e:
+        self.lost.append(e.what)
+        return None
+
+
+Item.sub = _sub
+Item._anchor_soft = _anchor_soft
